@@ -2,10 +2,10 @@
 """Writes /verif/MANIFEST.json from the table below (kept next to the checks so the two cannot drift)."""
 import json
 
-S_NOTE = ("Trusted base: Go toolchain and race detector; simgen's rewrite rules (the repository's tests pass on the rewritten tree); "
+S_NOTE = ("A run that exhausts its step budget is reported as no-progress, a run that kills or stalls the worker inside the code under test as crash/hang (re-executed alone from its seed before it is believed). Trusted base: Go toolchain and race detector; simgen's rewrite rules (the repository's tests pass on the rewritten tree); "
           "the enabledness models of mutex/RWMutex/WaitGroup/channel/select/timer in verif/sim/rt (a wrong model fails towards exit 2 through the divergence guards, not towards a false VIOLATION); "
           "porcupine v1.3.0 where linearizability is checked; the reference models. Seeded sampling within stated bounds: evidence, not proof.")
-H_NOTE = ("Single client, no faults: these properties have no schedule, clock or fault dimension; what is explored is the space of operation histories. "
+H_NOTE = ("Runs on the rewritten copy so that map iteration order is a replayable draw; otherwise single client, no faults: these properties have no schedule, clock or fault dimension; what is explored is the space of operation histories. "
           "Trusted base: Go toolchain, the reference model in the harness. Seeded sampling, not enumeration.")
 
 TECH = "seeded operation-history search against an executable reference model in the simulator's fault-free single-client configuration (no interleaving or fault dimension exists)"
@@ -84,7 +84,7 @@ def main():
         "engines": [{"name": "verifsim", "path": "/verif/cmd/verifsim", "serves_properties": sorted(claimed), "kind_free_text": "deterministic simulation with fault injection: seeded cooperative scheduler (verif/sim/rt) under real goroutines running the rewritten library; reference-model and linearizability oracles; minimised replay files"}],
         "checks": checks,
         "not_applicable": na,
-        "notes": "Exit 0 held / 1 VIOLATION / 2 the check could not do its job. VERIF_SEED and VERIF_TIER honoured. Known findings: /verif/known_findings.json.",
+        "notes": "Exit 0 held / 1 VIOLATION / 2 the check could not do its job. VERIF_SEED and VERIF_TIER honoured. Known findings: /verif/known_findings.json (C10: four open entries; six fixed entries with their /repo commits). Independently seeded breaking changes and what catches them: /verif/seeded/ and DESIGN.md 11.6; tools/seeded_regress.py re-runs them all. ./check selftest proves same-seed determinism across processes, GOMAXPROCS and plain/-race builds.",
     }
     json.dump(m, open('/verif/MANIFEST.json', 'w'), indent=1)
     print("claimed:", sorted(claimed), "n/a:", [x["property_id"] for x in na])
